@@ -174,10 +174,29 @@ def run(ctx, rep):
     R3 = rep.rule('C09.R3', 'build() is the step() loop')
     b = m.func(TAB, 'Tableau.build')
     si = m.func(TAB, 'Tableau.stepiter')
-    ok = 'for _ in self.stepiter()' in astq.u(b) and 'return self' in astq.u(b)
+    from ..minieval import Interp, Obj, Raises
+    it = Interp({}, where='Tableau.build / stepiter')
+    consumed = []
+
+    def gen():
+        for i in range(3):
+            consumed.append(i)
+            yield i
+    tabm = Obj('tableau')
+    tabm.stepiter = gen
+    r = it.safe(b, [tabm])
+    ok = r is tabm and consumed == [0, 1, 2]
     rep.instance(R3, ok=ok, nontrivial='build')
     if not ok:
-        rep.finding(R3, 'C09.R3/build', m.loc(TAB, b), 'Tableau.build', 'is no longer the exhausted stepiter()')
+        rep.finding(R3, 'C09.R3/build', m.loc(TAB, b), 'Tableau.build', f'does not exhaust stepiter() and return self (consumed {consumed}, returned {r!r})')
+    steps = iter(['e1', 'e2', None, 'e3'])
+    tabm2 = Obj('tableau')
+    tabm2.step = lambda: next(steps)
+    out = it.generate(si, [tabm2])
+    ok = out == ['e1', 'e2']
+    rep.instance(R3, ok=ok, nontrivial='stepiter-fold')
+    if not ok:
+        rep.finding(R3, 'C09.R3/stepiter/fold', m.loc(TAB, si), 'Tableau.stepiter', f'does not yield step() results until the first empty one: {out}')
     txt = astq.u(si)
     ok = 'while True' in txt and 'step = self.step()' in txt and 'if not step' in txt and 'yield step' in txt
     rep.instance(R3, ok=ok, nontrivial='stepiter')
